@@ -66,6 +66,8 @@ def check(run, views, tier):
                    "tables/danger.json lists the weakening APIs of those crates"]
     run.not_decided = ["what the TLS libraries do with a verifying configuration (chain building, expiry, host-name match)",
                        "whether reqwest's rustls-only Certificate::from_pem rejects DER input (third-party; the DER fallback is present in the code)"]
+    from ..cargorules import r_cargo
+    r_cargo(run)
     for cfg, crates in views.items():
         run.cfg = cfg
         F = crates["ipp"]
